@@ -18,6 +18,7 @@ import Asn1Model.X691
 import Asn1Model.Extension
 import Asn1Model.Json
 import Asn1Model.Jer
+import Asn1Model.Gser
 import Asn1Model.SpecDictSx
 import Asn1Model.Xml
 import Asn1Model.Xer
@@ -611,6 +612,66 @@ def opXparse (args : List Sx) : String :=
       | .error .malformed => "malformed"
       | .error .unsupported => "unsupported"
     | none => "bad-hex"
+  | _ => "bad-args"
+
+
+/-! ### GSER -/
+
+def cpsToStr (cps : List Nat) : String := String.ofList (cps.map Char.ofNat)
+
+/-- `gser <indent|-> <type name> <ty> <val>`: the octets of the GSER text `name Name ::= value`,
+`ok <hex>` / `err <class>` (`-` = `indent=None`) -/
+def opGser (args : List Sx) : String :=
+  match args with
+  | [.atom ind, .atom name, t, v] =>
+    match sxTy? t, sxVal? v, (if ind == "-" then some none else ind.toNat?.map some) with
+    | some ty, some val, some indent =>
+      match Gser.encode name ty val indent with
+      | .ok bs => "ok " ++ hexOut bs
+      | .error e => "err " ++ uperErr e
+    | none, _, _ => "bad-type"
+    | _, none, _ => "bad-value"
+    | _, _, none => "bad-indent"
+  | _ => "bad-args"
+
+/-- `gserread <ty> <hex>`: the independent RFC 3641 reader on the octets of a whole text:
+`ok <val> <valuename> <typename> strict=<T|F>` (strict: also accepted without white space around `:`) /
+`malformed` (not UTF-8, or not `valuereference Typereference ::= Value` followed by nothing) /
+`illtyped` (a Value, but not one of the type) -/
+def opGserRead (args : List Sx) : String :=
+  match args with
+  | [t, .atom h] =>
+    match sxTy? t, hexArg? h with
+    | some ty, some bs =>
+      match Gser.textCps bs with
+      | none => "malformed"
+      | some s =>
+        match Gser.parseAssignment true s with
+        | none => "malformed"
+        | some (vn, tn, g) =>
+          match Gser.toVal ty g with
+          | none => "illtyped"
+          | some v =>
+            "ok " ++ valToStr v ++ " " ++ cpsToStr vn ++ " " ++ cpsToStr tn ++ " strict=" ++
+              b2s (Gser.parseAssignment false s).isSome
+    | none, _ => "bad-type"
+    | _, none => "bad-hex"
+  | _ => "bad-args"
+
+/-- `gserrt <indent|-> <type name> <ty> <val>`: hypotheses and conclusion of `gser_roundtrip` on the case -/
+def opGserRt (args : List Sx) : String :=
+  match args with
+  | [.atom ind, .atom name, t, v] =>
+    match sxTy? t, sxVal? v, (if ind == "-" then some none else ind.toNat?.map some) with
+    | some ty, some val, some indent =>
+      let hyps := s!"wf={b2s ty.wf} typed={b2s (hasType ty val)} ids={b2s (Gser.idsOk ty)} name={b2s (Gser.typeNameOk name)}"
+      match Gser.encode name ty val indent with
+      | .error e => hyps ++ " enc=err:" ++ uperErr e
+      | .ok bs =>
+        match Gser.decode ty bs with
+        | none => hyps ++ " enc=ok read=none"
+        | some (_, _, w) => hyps ++ s!" enc=ok read=ok value={b2s (w == Gser.canonG ty val)}"
+    | _, _, _ => "bad-args"
   | _ => "bad-args"
 
 
